@@ -6,6 +6,9 @@ CONSTANTS
   FirstT = 0
   MaxT = 4
   Kinds = {"f", "sf", "h"}
+  RunGaps = {}
+  RunLens = {}
+  MaxRuns = 0
   Sels <- SelsA
   Offs <- OffsQuick
   Ats <- AtsQuick
